@@ -273,5 +273,31 @@ func Run(c *fw.Ctx) {
 		}
 	}
 	c.Scope("g:length-bytes", "lengths", 256, "remaining", "l-1,l,l+1,l+2")
+	// (h) inputs shorter than the fixed header that carry the cookie (and options) right after a
+	// field boundary or anywhere else: a decoder that loses a short read must not resynchronise on them
+	tails := [][]byte{{0xff}, {}, {0x35, 0x01, 0x01, 0xff}, {0x00, 0xff}}
+	for L := 0; L < 240; L++ {
+		for ti, tail := range tails {
+			in := append(append(append([]byte{}, valid[0][:L]...), v4ref.Cookie[:]...), tail...)
+			if Check(c, fmt.Sprintf("h:short-header+cookie(tail%d)", ti), ord, in) {
+				c.Nontrivial(1)
+			}
+			c.Eval(1)
+			ord++
+		}
+	}
+	// valid packets whose sname / file / chaddr begin with cookie+End, truncated at every offset
+	for _, off := range []int{28, 44, 108} {
+		v := append([]byte{}, valid[0]...)
+		copy(v[off:], append(append([]byte{}, v4ref.Cookie[:]...), 0xff))
+		for t := 0; t <= len(v); t++ {
+			if Check(c, "h:cookie-inside-field,truncated", ord, v[:t]) {
+				c.Nontrivial(1)
+			}
+			c.Eval(1)
+			ord++
+		}
+	}
+	c.Scope("h:short-inputs-with-cookie", "prefix_lengths", "0..239", "tails", len(tails), "cookie_inside", "chaddr,sname,file x every truncation")
 	c.Assume("reference decoder v4ref written from RFC 2131/2132/3396 (stdlib only)", "bytes after End and chaddr bytes beyond hlen are ignored by both sides (statement)")
 }
